@@ -374,7 +374,7 @@ def producers(P, E, chk, prop, units, qa):
                 if not okd:
                     # a pending contract of a producer: rk > 0 => rk <= bound, with bound <= capacity + k
                     for g in d:
-                        if g.kind == "imp" and g.key[1] == rk and g.relop == ">" and g.c == 0 and g.fact.op == "<=" and g.fact.key[0] == rk:
+                        if g.kind == "imp" and g.fact.kind == "cmp" and g.key[1] == rk and g.relop == ">" and g.c == 0 and g.fact.op == "<=" and g.fact.key[0] == rk:
                             bf = L.lin(g.fact.r)
                             if bf is not None and guard.d_nonneg(d, L.sub(({capn: 1}, k), bf)):
                                 okd = True
